@@ -42,10 +42,14 @@ def ensure_dirs():
         os.makedirs(d, exist_ok=True)
 
 
+CREATED = []    # scratch directories made by THIS process (another check may be running next to it in the same work/)
+
+
 def workdir(name):
     d = os.path.join(WORK, name)
     shutil.rmtree(d, ignore_errors=True)
     os.makedirs(d, exist_ok=True)
+    CREATED.append(d)
     return d
 
 
@@ -426,7 +430,7 @@ def write_evidence(pid, tier, level, coverage, assumptions, wall, violations):
 
 
 def clean_tmp():
-    shutil.rmtree(os.path.join(WORK, "tmp"), ignore_errors=True)
-    for d in glob.glob(os.path.join(WORK, "tlc-*")):
-        if os.path.isdir(d):
+    """Remove the TLC scratch directories this process created (never another running check's)."""
+    for d in CREATED:
+        if os.path.basename(d).startswith("tlc-") and os.path.isdir(d):
             shutil.rmtree(d, ignore_errors=True)
